@@ -222,3 +222,38 @@ func Harness_C04_fetch_seek() {
 	vm.Assert("C04.fetch_no_error", err == nil)
 	vm.Assert("C04.fetch_right_member", got == m.Hdr.Name)
 }
+
+// Harness_C04_query_positions: recovery.Query reports every member at its true start, from an arbitrary
+// valid start position, across a trailer and into the next archive.
+func Harness_C04_query_positions() {
+	vm.SetUnwind(8)
+	rs := c04RecordSize()
+	t := vm.NewTape("drive")
+	record := vm.Int("record", 0, (1<<34)/rs)
+	block := vm.Int("block", 0, rs-1)
+	startBlocks := int64(record)*int64(rs) + int64(block)
+	t.AddZeros(startBlocks * 512)
+	c04AddMember(t, "m0", "/m0", 0)
+	t.AddTrailer()
+	c04AddMember(t, "m1", "/m1", vm.Choice("action1", 6))
+	t.AddTrailer()
+	vm.Assume(t.Len < 1<<44)
+	seen := 0
+	hdrs, err := Query(
+		config.DriveReaderConfig{Drive: t.OpenRead(), DriveIsRegular: true}, nil,
+		config.PipeConfig{RecordSize: rs}, config.CryptoConfig{},
+		record, block,
+		func(h *config.Header) {
+			seen++
+			var s *vm.Seg
+			for _, g := range t.Segs {
+				if g.Kind == vm.SegMember && g.Hdr.Name == h.Name {
+					s = g
+				}
+			}
+			vm.Assert("C04.query_pos_is_member_start", s != nil && (int64(rs)*h.Record+h.Block)*512 == s.Start && h.Block >= 0 && h.Block < int64(rs))
+		},
+	)
+	vm.Assert("C04.query_no_error", err == nil)
+	vm.Assert("C04.query_sees_both_members", seen == 2 && len(hdrs) == 2)
+}
